@@ -194,6 +194,10 @@ def _q7d(sa, sb, fA, fB, fC, fD, now):
         return q.SKIP
     with q.notrace():                 # concrete prefix: nothing symbolic exists in the world yet
         w = build_world(be, names)
+        if q.SHARD.get("old_id"):
+            # the first target already has a job id on record from long ago (that job is gone from the scheduler)
+            import json as _json
+            w.vfs.add(w.tracked_path(), 1, _json.dumps({names[0]: 55 if be == "local" else "55"}))
         w.install()
     try:
         w.concretely(w.run, first)
@@ -279,10 +283,10 @@ QUERIES = [
               "Slurm with and without the multi-cluster output format '<id>;<cluster>'" % IDS},
     {"name": "Q7c", "fn": q7c, "shards": [{"be": b} for b in BES], "timeout": {"quick": 400, "thorough": 900},
      "bound": "two invocations, 3 targets, every dependency subset; A pending or running at the second invocation"},
-    {"name": "Q7d", "fn": q7d, "shards": {"quick": [{"be": b, "first": f} for b in BES for f in (["A"], ["B"])] + [{"be": "slurm", "first": f, "lab": "rev"} for f in (["A"], [])] + [{"be": b, "first": ["A"], "mid": True} for b in ("lsf", "sge", "slurm")],
-                                          "thorough": [{"be": b, "first": f, "lab": lab} for b in BES for f in (["A"], ["B"], ["C"], []) for lab in ("topo", "rev")] + [{"be": b, "first": f, "mid": True} for b in ("lsf", "sge", "slurm") for f in (["A"], ["B"])]},
+    {"name": "Q7d", "fn": q7d, "shards": {"quick": [{"be": b, "first": f} for b in BES for f in (["A"], ["B"])] + [{"be": "slurm", "first": f, "lab": "rev"} for f in (["A"], [])] + [{"be": b, "first": ["A"], "mid": True} for b in ("lsf", "sge", "slurm")] + [{"be": b, "first": ["A"], "old_id": True} for b in ("slurm", "lsf")],
+                                          "thorough": [{"be": b, "first": f, "lab": lab} for b in BES for f in (["A"], ["B"], ["C"], []) for lab in ("topo", "rev")] + [{"be": b, "first": f, "mid": True} for b in ("lsf", "sge", "slurm") for f in (["A"], ["B"])] + [{"be": b, "first": f, "old_id": True} for b in BES for f in (["A"], ["B"])]},
      "timeout": {"quick": 600, "thorough": 1800},
-     "bound": "4 targets A->B->C, D<-(A,B) (a shortcut edge; in the rev shards the names are such that the middle target sorts before the root); invocation 1 = run of a named target, then each accepted job in one of 5 abstract states (symbolic), finish times symbolic ints; optionally a status invocation while the scheduler's answer about A's job is momentarily unhelpful; invocation 2 = run of everything"},
+     "bound": "4 targets A->B->C, D<-(A,B) (a shortcut edge; in the rev shards the names are such that the middle target sorts before the root); invocation 1 = run of a named target, then each accepted job in one of 5 abstract states (symbolic), finish times symbolic ints; optionally an old job id of A on record before invocation 1; optionally a status invocation while the scheduler's answer about A's job is momentarily unhelpful; invocation 2 = run of everything"},
 ]
 
 
